@@ -157,9 +157,9 @@ def Cell.render : Cell → String
   | .dt us => s!"T:{us}"
 
 /-- wire atom → cell.  The `N`-prefixed spellings (`NB:`, `NI:`, `NF:` — numpy scalars) and `DT:`
-(a `datetime.date`) denote the same cells as their plain forms: `as_primitive` normalises them. -/
+(a `datetime.date`) and `XF:nan` (a NaN held by a `np.float64` scalar) denote the same cells as their plain forms: `as_primitive` normalises them. -/
 def Cell.parse (s : String) : Option Cell :=
-  let s := if s.startsWith "NB:" || s.startsWith "NI:" || s.startsWith "NF:" then (s.drop 1).toString
+  let s := if s.startsWith "NB:" || s.startsWith "NI:" || s.startsWith "NF:" || s.startsWith "XF:" then (s.drop 1).toString
            else if s.startsWith "DT:" then (s.drop 1).toString else s
   if s = "N" then some .none
   else if s = "B:1" then some (.bool true)
